@@ -22,7 +22,7 @@ ASSUMPTIONS = [
 
 CORPUS = prov.get_corpus()
 NAMES = sorted(CORPUS)
-INSTANCES = [dict(conv=n, turn=t) for n in NAMES for t in prov.peer_turns(CORPUS[n][1])]
+INSTANCES = [dict(conv=n, turn=t, how=h) for n in NAMES for t in prov.peer_turns(CORPUS[n][1]) for h in ('close', 'reset')]
 
 ASSOC_START = (1, 2)        # indications that tell the user an association exists: A-ASSOCIATE indication / confirmation
 
@@ -56,7 +56,8 @@ def ended_cleanly(trace, conv):
 
 
 @cond(bounds='every conversation x every peer turn: the peer disconnects after a symbolic byte prefix 0 <= p <= len of '
-             'that turn (all prefixes at once; earlier turns complete, one PDU per segment); the local user keeps '
+             'that turn (all prefixes at once; earlier turns complete, one PDU per segment) - by an orderly close or by a '
+             'connection reset that is already pending when the last bytes are read (one instance each); the local user keeps '
              'issuing the primitives of the scenario as far as their gates are reached',
       family=INSTANCES, timeout=240)
 def disconnect_after_prefix(p: int) -> bool:
@@ -72,7 +73,7 @@ def disconnect_after_prefix(p: int) -> bool:
             cut.append(t)
         elif i == turn:
             cut.append(t)
-            cut.append(('close', None, t[2]))
+            cut.append((fam('how'), None, t[2]))
         elif t[0] == 'user':
             cut.append(t)
 
@@ -155,7 +156,77 @@ def kill_any_time(k: int) -> bool:
     return ok
 
 
+@cond(bounds='two acceptor-side associations on one entity over REAL providers: A\'s peer connects and never sends its first '
+             'PDU (or: A refused the association and the peer never closes - one instance each); meanwhile a second '
+             'association B is accepted, served and released normally; then the clock advances by a SYMBOLIC dt in '
+             '0..30 s: A must be idle with its connection closed iff its own ARTIM limit has been exceeded, B\'s '
+             'traffic notwithstanding', family={'a_state': ['sta2', 'sta13']}, timeout=240)
+def artim_next_to_other_association(dt: int, b_first: bool) -> bool:
+    """
+    pre: 0 <= dt <= 30
+    post: _
+    """
+    from vt import sim
+    from vt.harness import live as L, assoc as A
+    from pynetdicom2 import applicationentity, sopclass, exceptions as exc
+    clock = sim.SimClock(1000)
+    with sim._no_tracing():
+        L.install(clock)
+
+        class Entity(applicationentity.AE):
+            def __init__(self):
+                applicationentity.AEBase.__init__(self, ['1.2.840.10008.1.2'], 16384)
+                self.add_scp(sopclass.verification_scp)
+                self.refuse = False
+
+            def on_association_request(self, asce, rq):
+                if self.refuse:
+                    raise exc.AssociationRejectedError(1, 1, 3)
+
+            def on_receive_echo(self, ctx):
+                return 0
+        ae = Entity()
+        rq = CORPUS['acc_echo_release'][1][0][1]
+
+        def run_b():
+            b = L.LiveAcceptor(ae, 'B')
+            b.deliver(rq)
+            b.establish()
+            b.deliver(CORPUS['acc_echo_release'][1][2][1])
+            b.serve_one()
+            b.deliver(pdu.AReleaseRqPDU().encode())
+            b.serve_one()
+            return b
+        b = run_b() if b_first else None
+        a = L.LiveAcceptor(ae, 'A')
+        if fam('a_state') == 'sta13':
+            ae.refuse = True
+            a.deliver(rq)
+            a.establish()
+            ae.refuse = False
+        if not b_first:
+            b = run_b()
+        state_before = a.pump.state()
+    # time passes; A's provider thread gets to run
+    clock.now = clock.now + dt
+    a.pump.run()
+    if dt == 10:
+        return True                        # exactly the limit: either
+    expired = dt > 10
+    ok = a.pump.err is None and state_before == (2 if fam('a_state') == 'sta2' else 13)
+    if expired:
+        ok = ok and a.pump.state() == 1 and a.sock.closed and a.prov.dul_socket is None
+    else:
+        ok = ok and a.pump.state() == state_before and not a.sock.closed
+    deep(ok and expired and not b_first)
+    return ok
+
+
 def explain(cname, args, famv):
+    if cname == 'artim_next_to_other_association':
+        return 'association A in %s, clock advanced by %d s after association B was %s: A must be idle and closed iff ' \
+               'more than 10 s have passed' % (famv['a_state'], args['dt'], 'served before A connected' if args['b_first']
+                                                else 'served while A was waiting')
     if cname == 'disconnect_after_prefix':
         name, turn, p = famv['conv'], famv['turn'], args['p']
         acc, turns = CORPUS[name]
@@ -165,7 +236,7 @@ def explain(cname, args, famv):
                 cut.append(t)
             elif i == turn:
                 cut.append(t)
-                cut.append(('close', None, t[2]))
+                cut.append((famv.get('how', 'close'), None, t[2]))
             elif t[0] == 'user':
                 cut.append(t)
         conv = prov.Conversation(cut, acceptor=acc,
